@@ -440,6 +440,9 @@ def _check_leaf(rep, tier, name, r, res, target_shape, target_kind, case, replay
                 rep.violation(f"E3:{name.split(':')[0]}:{cl}", case, "known")
             continue
         verdict, m = cx.check_clause(rep, f"{name}:{cl}", pc, g, tier, engine="E3", sample=(f"pc={pc} |- {z3.simplify(g)}"[:400] if len(rep.samples) < 5 else None))
+        if verdict == "unknown":
+            rep.note(f"E3 {name}:{cl}: undecided by the solvers within the budget (the obligation stays undischarged: exit 2, not a violation)")
+            continue
         if verdict != "proved":
             m = m or cx.path_model(pc)
             sizes = {str(d): int(m[d].as_long()) for d in m.decls() if z3.is_int_value(m[d])} if m is not None else {}
